@@ -5,7 +5,7 @@ import ESV.Comp.CgCore
 namespace ESV.Comp
 open ESV ESV.Beh
 
-theorem agree_last {N : List Src.Node} {Z : Nat} {b b' : Src.B} {n : Src.Node} (ha : AgreeOn N Z b b') (hb : tbl b' = tbl b ++ [n]) :
+theorem agree_last {N : List Src.Node} {Z : Nat → Prop} {b b' : Src.B} {n : Src.Node} (ha : AgreeOn N Z b b') (hb : tbl b' = tbl b ++ [n]) :
     N[(tbl b).length]? = some n := by
   rw [ha.2 _ (Nat.le_refl _) (by rw [hb]; simp), hb]
   simp
